@@ -21,6 +21,7 @@ package main
 //	    S               GetSequenceUpdates(prefix) completely                      -> ok
 //	    SR              GetSequenceUpdates in a goroutine, held when it has read the DB (iterator.Valid) -> ok
 //	    SW              let it return                                               -> ok
+//	    E:<0|1>         db.EnableNotifications                                      -> ok
 //	    R               non-blocking receive on the waiter's channel               -> <key> | -
 //	    D               receive until nothing is buffered                          -> <key>,<key>,... | -
 //	  spec verdict at the end of a case (nothing in progress): seq:subscriber-saw-uncommitted-or-stale if the last value
@@ -436,6 +437,8 @@ func (s *subEnv) do(step string) string {
 		case <-time.After(c16Wait):
 			res = fail("ProcessWrite did not return")
 		}
+	case "E":
+		s.db.EnableNotifications(f[1] == "1")
 	case "S":
 		sw, err := s.db.GetSequenceUpdates(s.prefix)
 		hx.Must(err)
@@ -603,6 +606,10 @@ func c16SubMain(o *hx.Out, f hx.Flags) {
 				ts += 3
 				w.offset, w.ts = off, ts
 				return w.String()
+			}
+			if crng.Chance(30) { // what subscribers observe must not depend on the notifications switch of the shard
+				s.do("E:0")
+				o.Count("c16sub:notifications-disabled")
 			}
 			// before the subscription
 			for i, n := 0, crng.Intn(3); i < n; i++ {
